@@ -80,8 +80,8 @@ def carried(kind, spec, impl_frame):
 
 class C11(PropBase):
     id = "C11"
-    lean_modules = ["SqModel.Props.C11", "SqModel.Proofs.Dispatch"]
-    extractors = ["dispatch"]
+    lean_modules = ["SqModel.Props.C11", "SqModel.Proofs.Dispatch", "SqModel.Proofs.Bridge", "SqModel.Proofs.BridgeRat"]
+    extractors = ["dispatch", "trans"]
     rule = ("sequences over an alphabet of 35 well-formed frame kinds (every supported format, both edges of every type-code class, capability 4 and 7, a BDS 2,0 reply) x 2 aircraft (every supported format; altitude codes with Q=1), "
             "bounded-exhaustive for length 2 and sampled for length 3 (quick) / exhaustive length 3 (thorough), plus random sequences of "
             "50-300 frames with time steps; -U on/off; dump after every frame; compared with the model and with a reference fold "
